@@ -585,13 +585,8 @@ Qed.
 
 Lemma rgv_snd o all : snd (resolve_graph_vulns o all) = filter (match_vuln (fst (resolve_graph_vulns o all))) all.
 Proof. reflexivity. Qed.
-Lemma rgv_no_explicit o all : o_explicit o = [] -> resolve_graph_vulns o all = (o, filter (match_vuln o) all).
-Proof. intros H. unfold resolve_graph_vulns. rewrite H. reflexivity. Qed.
-Lemma explicit_consistent_no_explicit o a b : o_explicit o = [] -> explicit_consistent o a b = true.
-Proof.
-  intros H. unfold explicit_consistent. rewrite !(rgv_no_explicit _ _ H). cbn [fst].
-  apply forallb_forall. intros v _. apply eqb_reflx.
-Qed.
+Lemma rgv_fst o all : fst (resolve_graph_vulns o all) = o.
+Proof. reflexivity. Qed.
 
 Lemma NoDup_map_filter {A B} (f : A -> B) (g : A -> bool) l : NoDup (map f l) -> NoDup (map f (filter g l)).
 Proof.
@@ -629,12 +624,11 @@ Section PipelineProofs.
   Lemma idsv_to_vuln l : idsv (map to_vuln l) = map f_id l.
   Proof. unfold idsv. rewrite map_map. reflexivity. Qed.
 
-  Theorem reanalysis_on_D_lemma o f cands max ni p :
+  Theorem reanalysis_lemma o f cands max ni p :
     let rep := fix_vulns File read write analyse mgmt o f cands max ni in
     rep_patches rep = [p] ->
     same_map (read (write f (p_updates p))) (apply_updates (p_updates p) (read f)) ->
     (forall c, In c cands -> roundtrip_domain mgmt (read f) c = true) ->
-    explicit_consistent o (analyse (read f)) (analyse (read (rep_file rep))) = true ->
     forall i, In i (fresh_ids File read analyse o (rep_file rep)) <->
               (In i (map o_id (rep_vulns rep)) /\ ~ In i (fixed_ids p)) \/ In i (idsv (p_introduced p)).
   Proof.
@@ -643,7 +637,7 @@ Section PipelineProofs.
     cbn [rep_patches rep_vulns rep_file].
     set (m := read f). set (orig := {| m_reqs := m; m_vulns := map to_vuln kept |}).
     set (all := map (patch_of analyse mgmt o1 orig) cands).
-    intros Hch Hwr Hdom HD i.
+    intros Hch Hwr Hdom i.
     assert (Hp : In p all).
     { apply (choose_loop_subset all max ni [] []). fold (choose_patches all max ni). rewrite Hch. left. reflexivity. }
     unfold all in Hp. apply in_map_iff in Hp. destruct Hp as [c [Hpc Hc]].
@@ -656,14 +650,15 @@ Section PipelineProofs.
     { intros k. rewrite Hwr, Hu. cbn [m_reqs]. apply diff_apply_roundtrip_lemma; assumption. }
     set (A2 := analyse (read (write f (p_updates p)))) in *.
     assert (HA : forall v, In v A2 <-> In v (analyse c)) by (apply analyse_ext; exact Hsame).
-    (* the fresh analysis filters like the first one on D *)
-    assert (Ho1 : fst (resolve_graph_vulns o (analyse m)) = o1) by (unfold m; rewrite E0; reflexivity).
-    unfold explicit_consistent in HD. fold m in HD. rewrite Ho1 in HD. rewrite forallb_forall in HD.
+    (* the first analysis leaves the options as they are, so the strategies and the fresh analysis filter alike *)
+    assert (Ho1 : o1 = o).
+    { pose proof (rgv_fst o (analyse (read f))) as H. rewrite E0 in H. exact H. }
+    subst o1.
     assert (Hfresh : In i (fresh_ids File read analyse o (write f (p_updates p))) <-> In i (idsv nv)).
-    { unfold fresh_ids. fold A2. rewrite rgv_snd. unfold nv. rewrite idsv_to_vuln. unfold filter_vulns.
+    { unfold fresh_ids. fold A2. rewrite rgv_snd, rgv_fst. unfold nv. rewrite idsv_to_vuln. unfold filter_vulns.
       rewrite !in_map_iff. split; intros [v [E Hv]]; exists v; (split; [exact E|]); apply filter_In in Hv; apply filter_In; destruct Hv as [Hv1 Hv2].
-      - split; [apply HA; exact Hv1|]. specialize (HD v Hv1). apply eqb_prop in HD. congruence.
-      - assert (Hv1' : In v A2) by (apply HA; exact Hv1). split; [exact Hv1'|]. specialize (HD v Hv1'). apply eqb_prop in HD. congruence. }
+      - split; [apply HA; exact Hv1|exact Hv2].
+      - split; [apply HA; exact Hv1|exact Hv2]. }
     rewrite Hfresh.
     assert (ND : NoDup (idsv nv)).
     { unfold nv. rewrite idsv_to_vuln. apply NoDup_map_filter. apply analyse_nodup. }
@@ -672,19 +667,6 @@ Section PipelineProofs.
     destruct Halg as [H1 _]. rewrite H1.
     unfold fixed_ids. rewrite Hf, Hi. fold (idsv fx).
     rewrite compute_vulns_result_ids. reflexivity.
-  Qed.
-
-  Theorem reanalysis_lemma o f cands max ni p :
-    o_explicit o = [] ->
-    let rep := fix_vulns File read write analyse mgmt o f cands max ni in
-    rep_patches rep = [p] ->
-    same_map (read (write f (p_updates p))) (apply_updates (p_updates p) (read f)) ->
-    (forall c, In c cands -> roundtrip_domain mgmt (read f) c = true) ->
-    forall i, In i (fresh_ids File read analyse o (rep_file rep)) <->
-              (In i (map o_id (rep_vulns rep)) /\ ~ In i (fixed_ids p)) \/ In i (idsv (p_introduced p)).
-  Proof.
-    intros He rep Hch Hwr Hdom. apply reanalysis_on_D_lemma; try assumption.
-    apply explicit_consistent_no_explicit. exact He.
   Qed.
 
   Theorem no_patch_no_change_lemma o f cands max ni :
@@ -941,23 +923,4 @@ Proof.
   exists w_mgmt, {| m_reqs := [ {| r_name := 1; r_ver := 1; r_type := w_t0 |} ]; m_vulns := [] |},
          {| m_reqs := []; m_vulns := [] |}, (1, 0).
   vm_compute. repeat split; discriminate.
-Qed.
-
-Lemma explicit_list_reanalysis_refuted_lemma :
-  exists (o : ropts) (f : list req) (cands : list (list req)) (p : patch),
-    o_explicit o <> [] /\
-    (forall a b, same_map a b -> forall v, In v (w_analyse a) <-> In v (w_analyse b)) /\
-    (forall a, NoDup (map f_id (w_analyse a))) /\
-    let rep := fix_vulns (list req) w_read w_write w_analyse w_mgmt o f cands 1 false in
-    rep_patches rep = [p] /\
-    same_map (w_read (w_write f (p_updates p))) (apply_updates (p_updates p) (w_read f)) /\
-    (forall c, In c cands -> roundtrip_domain w_mgmt (w_read f) c = true) /\
-    ~ (forall i, In i (fresh_ids (list req) w_read w_analyse o (rep_file rep)) <->
-                 (In i (map o_id (rep_vulns rep)) /\ ~ In i (fixed_ids p)) \/ In i (idsv (p_introduced p))).
-Proof.
-  exists (w_opts [10]), w_file, w_cands.
-  eexists. split; [discriminate|]. split; [exact w_analyse_ext|]. split; [exact w_analyse_nodup|].
-  cbn zeta. split; [vm_compute; reflexivity|]. split; [apply w_write_read|]. split.
-  - intros c [<-|[]]. vm_compute. reflexivity.
-  - intros H. specialize (H 20). vm_compute in H. destruct H as [_ H]. apply H. right. left. reflexivity.
 Qed.
